@@ -230,6 +230,48 @@ def enterNext (p : Pat) (cfg : Cfg) (r : Run) (nxt : Step) (e : Event) : Adv :=
       .continue { r' with kc := some (if n ≥ cfg.maxKleene then n else n + 1) }
   else .continue r'
 
+/-- the Kleene cap check of the self-loop arm: `kc.next_var >= limits.max_events` (only if a capture exists) -/
+def capFull (cfg : Cfg) (r : Run) : Bool :=
+  match r.kc with
+  | some n => decide (n ≥ cfg.maxKleene)
+  | none => false
+
+/-- the postponed (self-referencing) predicate of a Kleene state rejects `e` given the previous capture -/
+def postponedFails (cur : Step) (e : Event) (caps : Caps) : Bool :=
+  match cur.postponed with
+  | some q => !evalPred q e caps
+  | none => false
+
+/-- KLEENE SELF-LOOP arm (`current_state` is a Kleene state and `event_matches_state` held). -/
+def selfLoop (p : Pat) (cfg : Cfg) (r : Run) (cur : Step) (e : Event) : Adv :=
+  if capFull cfg r then .continue r
+  -- has_epsilon_to_accept: every event is emitted at once, so the postponed predicate is checked
+  -- here against the previously captured event of the closure; a failing event is skipped
+  else if p.isLast r.pos && postponedFails cur e r.caps then .noMatch
+  else if p.isLast r.pos then .completeAndContinue (r.push e cur.alias) (r.push e cur.alias).result
+  else .continue { r.push e cur.alias with kc := some (r.kc.getD 0 + 1) }
+
+/-- "Check transitions" arm for a Normal state: its only transition is the next step's event state;
+it has no epsilon transitions, so a non-matching event is `NoMatch`. -/
+def viaTransitions (p : Pat) (cfg : Cfg) (r : Run) (e : Event) : Adv :=
+  match p.steps[r.pos + 1]? with
+  | some nxt => if matchesState nxt e r.caps then enterNext p cfg r nxt e else .noMatch
+  | none => .noMatch
+
+/-- "Check epsilon transitions" arm for a Kleene state (it has no event transitions): epsilons are
+[self (no transitions), continue]; a continue state that is Accept completes the run without consuming
+the event, otherwise the continue state's only transition is the next step. This arm only checks
+Accept: a Kleene `nxt` is entered without capture initialisation or emission. -/
+def viaEpsilon (p : Pat) (r : Run) (e : Event) : Adv :=
+  if p.isLast r.pos then .complete r.result
+  else match p.steps[r.pos + 1]? with
+    | some nxt =>
+      if matchesState nxt e r.caps then
+        if p.isLast (r.pos + 1) && !nxt.kleene then .complete ({ r with pos := r.pos + 1 }.push e nxt.alias).result
+        else .continue ({ r with pos := r.pos + 1 }.push e nxt.alias)
+      else .noMatch
+    | none => .noMatch
+
 /-- `advance_run_shared`, case order preserved. NFA of the fragment: step `i` owns one event state
 (`Normal`, or `Kleene` + self-loop + ε→self + ε→continue); the accept state is the last step's event
 state (non-Kleene) or its continue state (Kleene). Runs only ever sit in event states. -/
@@ -237,34 +279,11 @@ def advance (p : Pat) (cfg : Cfg) (r : Run) (e : Event) : Adv :=
   match p.steps[r.pos]? with
   | none => .noMatch
   | some cur =>
-    -- "Check if we're at an accept state" (only a one-step pattern leaves a run sitting there)
+    -- "Check if we're at an accept state" (only a one-step pattern could leave a run sitting there)
     if p.isLast r.pos && !cur.kleene then .complete r.result
-    -- KLEENE SELF-LOOP
-    else if cur.kleene && matchesState cur e r.caps then
-      if (match r.kc with | some n => decide (n ≥ cfg.maxKleene) | none => false) then .continue r
-      -- has_epsilon_to_accept: every event is emitted at once, so the postponed (self-referencing)
-      -- predicate is checked here against the previously captured event of the closure
-      else if p.isLast r.pos && (match cur.postponed with | some q => !evalPred q e r.caps | none => false) then .noMatch
-      else
-        let r' := r.push e cur.alias
-        if p.isLast r.pos then .completeAndContinue r' r'.result
-        else .continue { r' with kc := some (r.kc.getD 0 + 1) }
-    else if !cur.kleene then
-      -- transitions of a Normal state: exactly the next step's event state; no epsilons → NoMatch
-      match p.steps[r.pos + 1]? with
-      | some nxt => if matchesState nxt e r.caps then enterNext p cfg r nxt e else .noMatch
-      | none => .noMatch
-    else
-      -- a Kleene state has no event transitions; epsilons: [self (no transitions), continue]
-      if p.isLast r.pos then .complete r.result           -- ε-target is Accept: complete_run, event not consumed
-      else match p.steps[r.pos + 1]? with
-        | some nxt =>
-          if matchesState nxt e r.caps then
-            let r' := { r with pos := r.pos + 1 }.push e nxt.alias
-            -- this arm only checks Accept; a Kleene `nxt` is entered without capture/emission
-            if p.isLast (r.pos + 1) && !nxt.kleene then .complete r'.result else .continue r'
-          else .noMatch
-        | none => .noMatch
+    else if cur.kleene && matchesState cur e r.caps then selfLoop p cfg r cur e
+    else if !cur.kleene then viaTransitions p cfg r e
+    else viaEpsilon p r e
 
 /-- `try_start_run_shared`: the start state's only transition leads to step 0's event state; the run
 is created there (no Accept / Kleene handling on this path). -/
@@ -357,9 +376,11 @@ def matchesOf (p : Pat) (cfg : Cfg) (evs : List Event) : List Match :=
 /-! ## C01 — `Genuine`, the statement as a decidable predicate (also the judge) -/
 
 /-- the captures a stack determines: every aliased entry binds its alias, later entries win. -/
+def Entry.binding (en : Entry) : Caps := match en.alias with | some a => [(a, en.ev)] | none => []
+
 def capsOf : List Entry → Caps
   | [] => []
-  | en :: rest => capsOf rest ++ (match en.alias with | some a => [(a, en.ev)] | none => [])
+  | en :: rest => capsOf rest ++ en.binding
 
 /-- the filter an entry of step `s` must satisfy, given the captures at that moment. The first event
 of an `all` group is exempt from a *self-referencing* filter (there is no earlier event of the group
